@@ -177,10 +177,8 @@ func main() {
 		add("Shared.lean", c, e)
 		c2, e2 := passSlices(pkgs)
 		add("Slices.lean", c2, e2)
-	}
-	{
-		c, e := passBytes(root)
-		add("BytesProg.lean", c, e)
+		c3, e3 := passBytes(pkgs)
+		add("BytesProg.lean", c3, e3)
 	}
 	{
 		c, e := passCT(root)
